@@ -394,6 +394,13 @@ class LexicalEnum(Lexical, LangCommonEnum, lexcopy=True):
 
     __hash__ = Lexical.__hash__
 
+    def __setattr__(self, name, value, /):
+        # Members are read-only once the package is initialized. The base
+        # Lexical.__setattr__ copied in by `lexcopy` does not guard enums.
+        if getattr(LexicalEnum, '_readonly', False):
+            raise Emsg.ReadOnly(self, name)
+        super().__setattr__(name, value)
+
     @classmethod
     def first(cls) -> Self:
         if cls is __class__:
